@@ -259,6 +259,8 @@ fn run_case(case: &Value) -> Value {
         .min_message_latency(Duration::from_millis(cfg["min_ms"].as_u64().unwrap_or(0)))
         .max_message_latency(Duration::from_millis(cfg["max_ms"].as_u64().unwrap_or(0)))
         .udp_capacity(cfg["cap"].as_u64().unwrap_or(64) as usize)
+        // a TCP receive capacity different from the UDP one: a UDP queue sized from the wrong knob shows (seed C09-A8)
+        .tcp_capacity(cfg["tcp_cap"].as_u64().unwrap_or(64) as usize)
         .simulation_duration(Duration::from_secs(3600));
     if cfg["v6"].as_bool().unwrap_or(false) {
         b.ip_version(turmoil::IpVersion::V6);
